@@ -152,3 +152,26 @@ PROPS["C10"] = {
         {"name": "fpx-w64-381", "world": "W64-381", "src": "props/C10_fpx.c", "tiers": ("thorough",)},
     ],
 }
+
+def _san(name, world, src, stride):
+    return {"name": name, "world": world, "src": src, "args": ["--stride", str(stride)], "memory_only": True, "share": 0.12}
+
+PROPS["C08"] = {
+    "level": "fault_enumeration",
+    "technique": "exhaustive allocation-failure enumeration (every k-th allocation of every driver operation fails once, each in a forked child under AddressSanitizer/UndefinedBehaviorSanitizer in the ALLOC=DYNAMIC build) plus re-execution of the bounded-exhaustive drivers of the other properties (complete tiny state spaces, capacity-edge and buffer-length sweeps) under the sanitizers",
+    "level_text": "Pass 3: for each of 24 driver operations (bn mul/div/gcd/mxp/inverse/primality/text codec, fp inverse/exp/root, ep lwnaf/lwreg/ladder/generator/simultaneous/hash-to-curve/codec, ep2 mul, optimal-ate pairing, fp12 arithmetic, eb mul, XMD, ECDSA gen+sign+verify, BLS gen+sign+verify) the run counts the N allocations and fails exactly the k-th one for EVERY k in 1..N (capped at 300 per driver in the quick tier); each case must report the failure (thrown code or error return), raise no sanitizer report, and compute the baseline result when repeated fault-free. Passes 1-2: the enumerations of C01, C02, C03, C07, C09, C10, C16 (every k-th case of their deterministic order, stride recorded per job) re-run in W8-san / W64-san; only memory verdicts count there: sanitizer reports, crashes, hangs, guard-byte violations, missing precision/buffer errors.",
+    "level_note": "Trusted: ASan/UBSan (gcc 12) as the memory oracle. Calls outside any RLC_TRY are not explored (documented idiom). Intra-object overflow invisible to ASan is only seen through guard bytes / value oracles. Leaks are not judged.",
+    "rule": "pass 3 cases are (driver, index of the failed allocation): all counted non-trivial, distinct by construction; passes 1-2 reuse the case definitions of the re-run harnesses with the stated stride.",
+    "assumptions": ["sanitizers as oracle", "calls inside RLC_TRY"],
+    "jobs": [
+        {"name": "alloc-faults", "world": "W64-dyn-san", "src": "props/C08_alloc.c", "ldflags": ["-Wl,--wrap=malloc,--wrap=calloc,--wrap=realloc,--wrap=posix_memalign"], "share": 0.3,
+         "env": {"ASAN_OPTIONS": "abort_on_error=1:detect_leaks=0:allocator_may_return_null=1:handle_segv=1:handle_sigbus=1:handle_abort=0"}},
+        _san("san-bn-w8", "W8-san", "props/C01_bn.c", 120), _san("san-bn-w64", "W64-san", "props/C01_bn.c", 40),
+        _san("san-fp-w8", "W8-san", "props/C02_fp.c", 50), _san("san-fp-w64", "W64-san", "props/C02_fp.c", 16),
+        _san("san-ep-w8", "W8-san", "props/C03_ep.c", 80), _san("san-ep-w64", "W64-san", "props/C03_ep.c", 24),
+        _san("san-codec-w8", "W8-san", "props/C07_codec.c", 16), _san("san-codec-w64", "W64-san", "props/C07_codec.c", 4),
+        _san("san-nt-w8", "W8-san", "props/C09_nt.c", 120), _san("san-nt-w64", "W64-san", "props/C09_nt.c", 40),
+        _san("san-fpx-w64", "W64-san", "props/C10_fpx.c", 50),
+        _san("san-fb-w8", "W8-san", "props/C16_fb.c", 100), _san("san-fb-w64", "W64-san", "props/C16_fb.c", 20),
+    ],
+}
